@@ -16,10 +16,12 @@ import (
 	"crypto/tls"
 	"fmt"
 	"io"
+	"log"
 	"net"
 	"net/http"
 	"net/http/httptest"
 	"sort"
+	"strconv"
 	"strings"
 	"sync"
 	"syscall"
@@ -112,7 +114,7 @@ func NewHTTP(name string, useTLS bool, rec *Recorder) *HTTPTarget {
 	t.Srv.Config.ConnState = func(c net.Conn, s http.ConnState) {
 		rec.add(Event{Ev: "Conn", Server: name, Conn: c.RemoteAddr().String(), State: s.String(), TLS: useTLS})
 	}
-	t.Srv.Config.ErrorLog = nil
+	t.Srv.Config.ErrorLog = log.New(io.Discard, "", 0) // resets and client-side closes are part of the programme
 	if useTLS {
 		t.Srv.TLS = &tls.Config{NextProtos: []string{"http/1.1"}}
 		t.Srv.StartTLS()
@@ -140,6 +142,17 @@ func (t *HTTPTarget) handle(w http.ResponseWriter, r *http.Request) {
 	}
 	t.rec.add(e)
 	b := t.behaviour()
+	// a request may carry its own answer: /__beh/<kind>/<status>/...
+	if rest, ok := strings.CutPrefix(r.URL.Path, "/__beh/"); ok {
+		parts := strings.Split(rest, "/")
+		b = Behaviour{Kind: parts[0]}
+		if b.Kind == "truncated" {
+			b.Kind = "truncate"
+		}
+		if len(parts) > 1 {
+			b.Status, _ = strconv.Atoi(parts[1])
+		}
+	}
 	switch b.Kind {
 	case "", "status":
 		st := b.Status
